@@ -234,3 +234,26 @@ package service
 //@   ensures [hash]   tx.Type != types.TransactionTypeETHTX && result == nil ==> tx.Hash == txDigest(*tx)
 //@   ensures [sign]   tx.Type != types.TransactionTypeETHTX && result == nil ==> tx.Sign != nil && recovOK(*tx.Sign, bytes(tx.Hash)) && pkVerify(recov(*tx.Sign, bytes(tx.Hash)), bytes(tx.Hash), *tx.Sign) && tx.Source == addrHex(pkAddr(recov(*tx.Sign, bytes(tx.Hash))))
 //@   ensures [honest] tx.Type != types.TransactionTypeETHTX && tx.ChainId == chainIdAt(height) && tx.Hash == txDigest(*tx) && tx.Sign != nil && recovOK(*tx.Sign, bytes(tx.Hash)) && pkVerify(recov(*tx.Sign, bytes(tx.Hash)), bytes(tx.Hash), *tx.Sign) && tx.Source == addrHex(pkAddr(recov(*tx.Sign, bytes(tx.Hash)))) ==> result == nil
+
+// ---------------------------------------------------------------------------------------------
+// Miner registry and refund queue as seen from the EVM's stake opcodes (C12): they read and write the account
+// database, i.e. the world state (the version ghost of the vm package).
+//@ func MinerManager.GetMinerIdByAccount
+//@   option trusted
+//@   modifies nothing
+
+//@ func MinerManager.GetMiner
+//@   option trusted
+//@   modifies nothing
+
+//@ func MinerManager.AddStake
+//@   option trusted
+//@   modifies ghost(stver)
+
+//@ func RefundManager.GetRefundStake
+//@   option trusted
+//@   modifies ghost(stver)
+
+//@ func RefundManager.Add
+//@   option trusted
+//@   modifies ghost(stver)
